@@ -94,7 +94,7 @@ def job_interp(which, kernel, D, nbatch, scalar_params, timeout_ms):
 
     def mk():
         g, bt, npts, width, param = _syms(D, nbatch, scalar_params)
-        coord = SArr.input("coord", npts + [D], valued=True, dtype=snp.FDT)
+        coord = SArr.input("coord", npts + [D], valued="real", dtype=snp.FDT)
         return g, bt, npts, width, param, coord
 
     def run():
@@ -191,27 +191,66 @@ def job_kb(timeout_ms):
     def post(r):
         if r.kind != "return":
             return [("no-exception", [], z3.BoolVal(False))]
-        x, beta = z3.Real("x"), z3.Real("beta")
-        ax = z3.If(x >= 0, x, -x)
+        x, beta = Sym(z3.Real("x")), Sym(z3.Real("beta"))
         v = core._to_real(core._lift(r.value))
-        # argument of I0: u = beta*sqrt(1-x^2); u >= 0, u^2 = beta^2 (1 - x^2); t = u / 3.75
-        u = z3.Real("u")
-        hy = [u >= 0, u * u == beta * beta * (1 - x * x)]
-        t = u / z3.RealVal("3.75")
-
-        def pw(b, n):
-            r_ = z3.RealVal(1)
-            for _ in range(n):
-                r_ = r_ * b
-            return r_
-        small = z3.Sum([z3.RealVal(repr(c)) * pw(t, 2 * i) for i, c in enumerate(AS_981)])
-        su = z3.Real("sqrt_u")
-        ti = 1 / t
-        large = (1 / su) * E(u) * z3.Sum([z3.RealVal(repr(c)) * pw(ti, i) for i, c in enumerate(AS_982)])
-        want = z3.If(ax > 1, z3.RealVal(0), z3.If(u < z3.RealVal("3.75"), small, large))
-        return [("zero-outside-[-1,1];A&S-9.8.1-below-3.75;A&S-9.8.2-above", hy + [su >= 0, su * su == u], v == want)]
+        outside = (abs(x) > 1).t
+        if core._check(r.ctx.hyps() + [z3.Not(outside)], 2000) == z3.unsat:
+            return [("zero-outside-[-1,1]", [], v == 0)]
+        with core.spec_side():
+            return [("inside-the-support", [], z3.Not(outside))] + _kb_inside(x, beta, v, E)
     obs, covers = path_obligations("C07/_kaiser_bessel_kernel", results, post, instance="kb", fn_record=rec)
     return check_obligations(obs, timeout_ms) + covers
+
+
+def _kb_inside(x, beta, v, E):
+    """inside the support the argument of I0 is u = beta*sqrt(1-x^2) (the sqrt witnesses are the memoised ones of the path)"""
+    u = beta * core.sym_sqrt(1 - x * x)
+    t = u / Sym(z3.RealVal("3.75"))
+
+    def pw(b_, n):
+        r_ = 1
+        for _ in range(n):
+            r_ = r_ * b_
+        return r_
+    small = 0
+    for i, c in enumerate(AS_981):
+        small = small + Sym(z3.RealVal(repr(c))) * pw(t, 2 * i)
+    ti = 1 / t
+    poly = 0
+    for i, c in enumerate(AS_982):
+        poly = poly + Sym(z3.RealVal(repr(c))) * pw(ti, i)
+    large = (1 / core.sym_sqrt(u)) * Sym(E(core._to_real(u.t))) * poly
+    below = (u < Sym(z3.RealVal("3.75"))).t
+    return [("inside:A&S-9.8.1-polynomial-below-3.75", [below], v == core._to_real(core._lift(small))),
+            ("inside:A&S-9.8.2-asymptotic-form-from-3.75", [z3.Not(below)], v == core._to_real(core._lift(large)))]
+
+
+def probes(tier, seed):
+    res = native("probe.py", dict(prop="C07", tier=tier, seed=seed), timeout=1500)
+    if isinstance(res, dict) and res.get("error"):
+        return [dict(name="native-probe", error=res["error"], cases=0)]
+    return res
+
+
+def replay_request(res):
+    n = res["name"]
+    if "_spline_kernel" in n or "_kaiser_bessel_kernel" in n:
+        kern = "spline" if "_spline" in n else "kaiser_bessel"
+        cases = [dict(fn="interp.check", args=dict(grid=[6], kernel=kern, width=w, param=p, npts=6, seed=s_))
+                 for w in (2.0, 3.0, 4.0) for p in ((0, 1, 2) if kern == "spline" else (1.0, 2.34, 5.0, 9.14)) for s_ in (0, 1)]
+        return dict(fn="multi", args=dict(cases=cases))
+    inst = res["meta"].get("instance", "")
+    kern = inst.split(",")[0]
+    D = int(inst.split("ndim=")[1].split(",")[0])
+    nb = int(inst.split("batch_axes=")[1].split(",")[0])
+    per = "per-axis" in inst
+    grid = [5, 4, 3][:D]
+    cases = []
+    for special in (None, "half-integers", "integers", "duplicates"):
+        for p in ((1, 2) if kern == "spline" else (2.34, 9.14)):
+            cases.append(dict(fn="interp.check", args=dict(grid=grid, batch=[2] * nb, kernel=kern, npts=4, special=special,
+                                                           width=([2.0, 3.5, 1.5][:D] if per else 2.5), param=([p] * D if per else p), seed=0)))
+    return dict(fn="multi", args=dict(cases=cases))
 
 
 def jobs(tier):
